@@ -4,7 +4,7 @@
 // terminal_is_recognised).  One instantiation per format because the hook structs are private.
 
 use super::*;
-use crate::verif_common::{instr_round_trip, instr_size_field, terminal_is_recognised, Stored, SizeField};
+use crate::verif_common::{label_round_trip, instr_round_trip, instr_size_field, terminal_is_recognised, Stored, SizeField};
 
 macro_rules! c03 {
     ($name:ident, $unwind:literal, $body:expr) => {
@@ -43,6 +43,75 @@ c03!(c03_std10_rt_n12, 15, instr_round_trip::<12>(&StdHooks10, Stored { param_ma
 c03!(c03_std10_size_field, 4, instr_size_field(&StdHooks10, Stored { param_mask: false, difficulty: false, extra_arg: false, pop_and_arg_count: false, maybe_terminal: false, ignore_param_mask: false }, SizeField { offset: 6, width: 2, counts_header: true, reader_max: 65535 }, 70000));
 //@ C03 c03_std10_terminal quick default STD (TH095+): the end-of-script marker written by write_terminal_instr is recognised as such by read_instr
 c03!(c03_std10_terminal, 8, terminal_is_recognised(&StdHooks10, false, 0));
+
+//@ C03 c03_label_std06 quick default STD TH06-09 label encoding (instruction index = offset / 20): decode_label(encode_label(dest)) == dest for every offset that is a multiple of the 20-byte instruction size, below 2^31
+c03!(c03_label_std06, 2, label_round_trip(&StdHooks06, 20));
+//@ C03 c03_label_std10 quick default STD TH095+ label encoding (absolute offset): round trip for every offset below 2^31
+c03!(c03_label_std10, 2, label_round_trip(&StdHooks10, 1));
+
+// ---------------------------------------------------------------------------------------
+// STD object tables ("every table entry"): a quad written by write_quad is read back by read_quad
+// with the same script id and the same coordinates, bit for bit, and the quad-list terminator is
+// recognised.  Floats are compared as bit patterns (NaN payloads included).
+
+fn same3(a: [f32; 3], b: [f32; 3]) -> bool {
+    a[0].to_bits() == b[0].to_bits() && a[1].to_bits() == b[1].to_bits() && a[2].to_bits() == b[2].to_bits()
+}
+fn arb3() -> [f32; 3] { [kani::any(), kani::any(), kani::any()] }
+
+fn quad_round_trip(strip: bool) {
+    let emitter = crate::verif_common::noop_emitter();
+    let format = FileFormat06 { has_strips: true, hooks: StdHooks06 };
+    let quad = Quad {
+        anm_script: kani::any(),
+        extra: if strip {
+            QuadExtra::Strip { start: arb3(), end: arb3(), width: kani::any() }
+        } else {
+            QuadExtra::Rect { pos: arb3(), size: [kani::any(), kani::any()] }
+        },
+    };
+    let mut w = BinWriter::from_writer(&emitter, "x", std::io::Cursor::new(Vec::<u8>::with_capacity(64)));
+    write_quad(&mut w, &emitter, &format, &quad).ok().expect("writing a quad cannot fail");
+    let bytes: Vec<u8> = w.into_inner().into_inner();
+    assert!(bytes.len() == if strip { 0x24 } else { 0x1c }, "written quad has the size its header announces");
+    let mut r = BinReader::from_reader(&emitter, "x", std::io::Cursor::new(bytes));
+    let back = match read_quad(&mut r, &emitter) {
+        Ok(Some(q)) => q,
+        Ok(None) => { assert!(false, "quad read back as the list terminator"); return; },
+        Err(e) => { core::mem::forget(e); assert!(false, "written quad cannot be read back"); return; },
+    };
+    assert!(back.anm_script == quad.anm_script, "quad script id read back differs");
+    match (&back.extra, &quad.extra) {
+        (QuadExtra::Rect { pos: p2, size: s2 }, QuadExtra::Rect { pos, size }) => {
+            assert!(same3(*p2, *pos), "rect position read back differs");
+            assert!(s2[0].to_bits() == size[0].to_bits() && s2[1].to_bits() == size[1].to_bits(), "rect size read back differs");
+        },
+        (QuadExtra::Strip { start: a2, end: e2, width: w2 }, QuadExtra::Strip { start, end, width }) => {
+            assert!(same3(*a2, *start) && same3(*e2, *end), "strip endpoints read back differ");
+            assert!(w2.to_bits() == width.to_bits(), "strip width read back differs");
+        },
+        _ => assert!(false, "quad kind read back differs"),
+    }
+    core::mem::forget(emitter);
+}
+//@ C03 c03_std_quad_rect quick default STD object table: a rectangle quad written by write_quad is read back by read_quad with the same script id, position and size (bit for bit), and has the size its header announces
+c03!(c03_std_quad_rect, 6, quad_round_trip(false));
+//@ C03 c03_std_quad_strip quick default STD object table: a strip quad (TH08/09) round-trips through write_quad / read_quad bit for bit
+c03!(c03_std_quad_strip, 6, quad_round_trip(true));
+//@ C03 c03_std_quad_terminal quick default STD object table: the quad-list terminator written by write_terminal_quad is recognised by read_quad
+c03!(c03_std_quad_terminal, 6, {
+    let emitter = crate::verif_common::noop_emitter();
+    let mut w = BinWriter::from_writer(&emitter, "x", std::io::Cursor::new(Vec::<u8>::with_capacity(16)));
+    write_terminal_quad(&mut w).ok().expect("writing the terminator cannot fail");
+    let bytes: Vec<u8> = w.into_inner().into_inner();
+    let mut r = BinReader::from_reader(&emitter, "x", std::io::Cursor::new(bytes));
+    match read_quad(&mut r, &emitter) {
+        Ok(None) => {},
+        Ok(Some(q)) => { core::mem::forget(q); assert!(false, "terminator read back as a quad"); },
+        Err(e) => { core::mem::forget(e); assert!(false, "terminator cannot be read back"); },
+    }
+    core::mem::forget(emitter);
+});
 
 #[cfg(kani)]
 #[path = "/verif/.cache/playback/std.rs"]
